@@ -132,6 +132,10 @@ func (c *ConcCase) runImpl() string {
 		}
 		return opts
 	}
+	sharedOpts := mkOpts()
+	if len(c.Universe) == 0 {
+		sharedOpts.Loader = nil // no loader needed: Resolve substitutes its own (not into the caller's value)
+	}
 	rs, err := s.Resolve(mkOpts())
 	if err != nil {
 		// Resolve fails: still exercise concurrent Resolve / Marshal / Clone of the shared Schema
@@ -141,7 +145,7 @@ func (c *ConcCase) runImpl() string {
 			wg.Add(1)
 			go func(g int) {
 				defer wg.Done()
-				_, e := s.Resolve(mkOpts())
+				_, e := s.Resolve(sharedOpts)
 				b, _ := json.Marshal(&s)
 				cb, _ := json.Marshal(s.CloneSchemas())
 				outs[g] = fmt.Sprintf("%v|%x|%x", e == nil, fnv(string(b)), fnv(string(cb)))
@@ -191,7 +195,8 @@ func (c *ConcCase) runImpl() string {
 			case 1:
 				vecs[g] = verdictVec(rs, insts, rev)
 			case 2:
-				rs2, e := s.Resolve(mkOpts())
+				// the options are a shared input too: one value, never used before, for every goroutine
+				rs2, e := s.Resolve(sharedOpts)
 				b, _ := json.Marshal(&s)
 				cb, _ := json.Marshal(s.CloneSchemas())
 				shared[g] = fmt.Sprintf("%v|%x|%x", e == nil, fnv(string(b)), fnv(string(cb)))
